@@ -680,7 +680,7 @@ func (nl *NodeList) RelateNodeListAtID(nl2 *NodeList, nodeID string, edgeType Ed
 		edge = &Edge{
 			Type: edgeType,
 			From: nodeID,
-			To:   nl2.RootElements,
+			To:   append([]string{}, nl2.RootElements...),
 		}
 		nl.Edges = append(nl.Edges, edge)
 	} else {
